@@ -972,7 +972,7 @@ fn real_quinn(thorough: bool) -> Result<Value, String> {
         .stderr(std::process::Stdio::inherit())
         .spawn()
         .map_err(|e| format!("{}: {e}", bin.display()))?;
-    let cap = std::time::Duration::from_secs(if thorough { 700 } else { 100 });
+    let cap = std::time::Duration::from_secs(if thorough { 1300 } else { 450 });
     let start = std::time::Instant::now();
     let mut stdout = child.stdout.take().ok_or("no stdout")?;
     let reader = std::thread::spawn(move || {
